@@ -11,9 +11,15 @@ echo "{" > $OUT/res.txt
 for ID in $IDS; do
   P=${ID%%-*}
   git -C $WT checkout -q . ; git -C $WT clean -fdq
-  if ! git -C $WT apply /verif/seeded/$ID/patch.diff 2>/dev/null; then echo "\"$ID\": \"apply-failed\"," >> $OUT/res.txt; continue; fi
+  if ! git -C $WT apply /verif/seeded/$ID/patch.diff 2>/dev/null; then
+    # written against an earlier HEAD (lines changed by a later fix: commit): run it on its own base
+    git -C $WT checkout -q 2bcd28a; git -C $WT clean -fdq
+    if ! git -C $WT apply /verif/seeded/$ID/patch.diff 2>/dev/null; then echo "\"$ID\": \"apply-failed\"," >> $OUT/res.txt; git -C $WT checkout -q --detach $(git -C /repo rev-parse HEAD); continue; fi
+    ONBASE=" (on base 2bcd28a)"
+  else ONBASE=""; fi
   COOLER_REPO=$WT VERIF_OUT=$OUT/o ./check $P quick > $OUT/$ID.txt 2>&1; EC=$?
-  echo "$ID exit=$EC $(tail -1 $OUT/$ID.txt | cut -c1-100)"
+  echo "$ID exit=$EC$ONBASE $(tail -1 $OUT/$ID.txt | cut -c1-100)"
+  [ -n "$ONBASE" ] && git -C $WT checkout -q . && git -C $WT checkout -q --detach $(git -C /repo rev-parse HEAD)
   echo "\"$ID\": $EC," >> $OUT/res.txt
 done
 echo "\"_head\": \"$(git -C /repo rev-parse --short HEAD)\"}" >> $OUT/res.txt
